@@ -948,6 +948,11 @@ def worker_host():
         if bad:
             raise core.HarnessError('the host model violates schema constraints before prebuild: %s' % bad[:5])
         _worker_host = host
+        # everything alive now is shared with the forked children: keep the collector from touching (and thereby
+        # copying) those pages in every child
+        import gc
+        gc.collect()
+        gc.freeze()
     return _worker_host
 
 
